@@ -25,7 +25,8 @@ func genC13(t *rapid.T) *Case {
 		c.Kind = "pager"
 	} else {
 		p := carrierProfile()
-		p.Core = append(append([]wc{}, p.Core...), wc{"dtable", 8}, wc{"figure", 6}, wc{"img", 6})
+		p.Core = append(append([]wc{}, p.Core...), wc{"dtable", 8}, wc{"figure", 6}, wc{"img", 6}, wc{"separator", 10}, wc{"uspacer", 4})
+		p.Top = append(append([]wc{}, p.Top...), wc{"separator", 8})
 		g := newG(t, p)
 		c.HTML = g.page()
 		if rapid.IntRange(0, 2).Draw(t, "leadimgs") == 0 {
